@@ -19,8 +19,8 @@ BUDGET_S = {'quick': 100, 'thorough': 1800}
 
 def plan(tier, seed):
     from . import c08_script
-    return [('hostile-legal', 4000 if tier == 'quick' else 60000), ('lease', 1500 if tier == 'quick' else 20000)] \
-        + c08_script.plan(tier, seed)
+    return [('hostile-legal', 4000 if tier == 'quick' else 60000), ('lease', 1500 if tier == 'quick' else 20000),
+            ('reconnect', 800 if tier == 'quick' else 12000)] + c08_script.plan(tier, seed)
 
 
 def gen_case(rng, tier):
@@ -76,6 +76,8 @@ def run_case(gen, idx, rng, tier):
     assert_repo()
     if gen == 'lease':
         return run_lease(idx, rng, tier)
+    if gen == 'reconnect':
+        return run_reconnect(idx, rng, tier)
     if gen != 'hostile-legal':
         from . import c08_script
         return c08_script.run_case(gen, idx, rng, tier)
@@ -140,6 +142,88 @@ def run_lease(idx, rng, tier):
     nt = any(ev.get('post') for ev in desc['timeline'])
     return {'evals': 1, 'nt_keys': [short_hash(desc)] if nt else [], 'sigs': [world.signature()], 'deciding': st,
             'witnesses': ws, 'counts': {'lease_runs': 1}, 'sample': desc}
+
+
+REQUEST_TYPES = ('REQUEST_RESPONSE', 'REQUEST_STREAM', 'REQUEST_CHANNEL', 'REQUEST_FNF')
+
+
+def run_reconnect(idx, rng, tier):
+    """A reconnecting client (the C17 workload: connection endings of every kind with requests, streams and channels
+    pending, publishers that keep producing): on EVERY connection what the client sends must be legal for that
+    connection - SETUP first and once, a stream begins with a request frame on this connection, odd ids - so
+    nothing of an earlier connection (queued frames, live publishers, credit) may surface on a later one."""
+    from .. import vloop
+    from ..runner import short_hash
+    from . import c17
+    desc = c17.gen_case(rng)
+    world, rounds, conns = vloop.run(c17._run(rng, desc))
+    st = {'sends_judged': 0, 'cancel_frames_seen': 0, 'error_frames_seen': 0, 'streams_terminated': 0,
+          'connections_judged': 0, 'later_connections_with_stream_frames': 0}
+    wit = []
+    by_conn = {}
+    for e in world.events:
+        if e['kind'] == 'wire' and 'conn' in e:
+            by_conn.setdefault(e['conn'], []).append(e)
+    for ci, evs in sorted(by_conn.items()):
+        opened = set()
+        sent = [e for e in evs if e['ep'] == 'c' and e['dir'] == 'send']
+        if not sent:
+            continue
+        st['connections_judged'] += 1
+        setups = 0
+        stream_frames = 0
+
+        def bad(clause, e, **kw):
+            wit.append({'clause': clause, 'detail': dict(kw, connection=ci, frame=_brief_frame(e['f']), at_event=e['i'],
+                                                         wire_of_connection=[('%s %s' % (x['ep'], x['dir']), _brief_frame(x['f']))
+                                                                             for x in evs[:40]], case=desc)})
+        for n, e in enumerate(evs):
+            f = e['f']
+            t = f.get('type')
+            sid = f.get('sid', 0)
+            if e['ep'] == 's' and e['dir'] == 'send' and t in REQUEST_TYPES:
+                opened.add(sid)
+            if e['ep'] != 'c' or e['dir'] != 'send':
+                continue
+            st['sends_judged'] += 1
+            if t == 'CANCEL':
+                st['cancel_frames_seen'] += 1
+            if t == 'ERROR':
+                st['error_frames_seen'] += 1
+            if e is sent[0] and t != 'SETUP':
+                bad('first-frame-not-setup', e)
+            if t == 'SETUP':
+                setups += 1
+                if setups > 1:
+                    bad('second-setup', e)
+            if not sid:
+                continue
+            stream_frames += 1
+            if t in REQUEST_TYPES:
+                if sid % 2 != 1:
+                    bad('stream-id-parity', e)
+                opened.add(sid)
+            elif sid not in opened:
+                bad('frame-on-stream-never-opened-on-this-connection', e)
+        if ci > 0 and stream_frames:
+            st['later_connections_with_stream_frames'] += 1
+    seen = set()
+    ws = []
+    for w in wit:
+        if w['clause'] not in seen:
+            seen.add(w['clause'])
+            ws.append(w)
+    nt = st['connections_judged'] >= 2
+    return {'evals': 1, 'nt_keys': [short_hash(desc)] if nt else [], 'sigs': [world.signature()], 'deciding': st,
+            'witnesses': ws, 'counts': {'reconnect_runs': 1}, 'sample': desc}
+
+
+def _brief_frame(f):
+    from .. import minicodec
+    try:
+        return minicodec.brief(f)
+    except Exception:
+        return str(f)[:80]
 
 
 def classify(w):
